@@ -23,7 +23,8 @@ open Gluon Gluon.Auth
     handler class the specification allows (any-state commands → `handleAnyCommand` or LOGOUT;
     LOGIN/STARTTLS → not-authenticated handlers; mailbox commands and IDLE → guarded by
     `s.state == nil`; message commands → additionally through `State.Selected`; a stray DONE →
-    "bad command"); every dispatched type has a second-level handler; `maxLoginAttempts = 3`. -/
+    "bad command"); every dispatched type has a second-level handler; `maxLoginAttempts = 3`.
+    Part of `wellGated` is `userFromAuthorize`: see `user_source_is_authorize`. -/
 theorem dispatch_conforms :
     facts.wellGated = true ∧ Conforms facts ∧
     (∀ ty ∈ Facts.commandPayloadTypes, (AuthSpec.required.lookup ty).isSome = true) ∧
@@ -34,6 +35,23 @@ theorem dispatch_conforms :
           | "auth" => "handleAuthenticatedCommand" | _ => "handleWithMailbox") ++ ":" ++ x.1)).isSome = true) ∧
     (∀ x ∈ Facts.dispatchTable, x.2 = "notauth" → x.1 = "Login") ∧
     facts.maxAttempts = 3 := by
+  decide
+
+/-- **The only source of a session's user is a connector that accepted the presented credentials**
+    (by `decide` over the regenerated return table of `Backend.getUserID`): every `return` of
+    `getUserID` either carries a non-nil error or is `return user.userID, nil` directly under
+    `if user.connector.Authorize(ctx, username, password)` for the range user of `b.users`, on the
+    function's own, never written parameters; at least one such return exists; `GetState` builds the
+    session's state from `b.users[<that id>]`; `handleLogin` presents the LOGIN command's own user
+    name and password; `b.users` is keyed by each user's own id and `user.connector` is the connector
+    the user was added with.  A user id from any other source (a cache of earlier logins, a map lookup,
+    a remembered or default id) is classified `unknown` by the translator and this theorem — and with
+    it `dispatch_conforms` and every theorem below — stops checking.  This is what ties the model's
+    `chosen c ∈ c.accepting` (`login_wrong_never_auth`, `isolation`) to the source. -/
+theorem user_source_is_authorize :
+    facts.userFromAuthorize = true ∧
+    (∀ r ∈ Facts.getUserIDReturns, r.2 = "authorized" ∨ r.2 = "error") ∧
+    (∃ r ∈ Facts.getUserIDReturns, r.2 = "authorized") := by
   decide
 
 /-- in the current source only `Login` reaches `handleLogin` -/
@@ -146,8 +164,11 @@ theorem selected_required (env : Env σ) (sys : Sys σ) (u : UserId) (c : Cmd)
 
 /-- **Wrong credentials never authenticate** — a session authenticates only through a LOGIN whose
     credentials some user's connector accepts, and then as one of the accepting users: if a step
-    takes a not-authenticated session to user `u`, the command is LOGIN and `u ∈ accepting`.
-    (Sequence form: `unauth_no_effect` — with no accepted LOGIN the session never authenticates.) -/
+    takes a not-authenticated session to user `u`, the command is LOGIN and `u ∈ accepting` — the
+    session is bound to a user whose connector authorised exactly the presented pair in this very
+    call; what an earlier LOGIN (of anybody, on any connection) presented plays no role: the login
+    state carried between attempts is the failure counter and the jail timer only (`LoginSt`), as
+    `user_source_is_authorize` checks of the source.  (Sequence form: `unauth_no_effect` — with no accepted LOGIN the session never authenticates.) -/
 theorem login_wrong_never_auth (env : Env σ) (sys : Sys σ) (c : Cmd) (u : UserId)
     (h : (step facts env .notAuth sys c).1.user = some u) : c.ty = "Login" ∧ u ∈ c.accepting := by
   obtain ⟨_, _, hpn, _⟩ := step_notAuth facts dispatch_conforms.1 env sys c
